@@ -258,6 +258,16 @@ func (rep *report) finish(ld *loaded, known map[string]knownFinding, noReplay bo
 			}
 		case "panic":
 			confirmed = res.Result == "panic"
+		case "known-panic":
+			confirmed = res.Result == "panic"
+			// the class covers only a panic raised in the recorded function; any other panic is an ordinary violation
+			if k, ok := known[r.f.KnownID]; ok && k.Status == "open" && k.PanicIn != "" && strings.Contains(r.f.Detail, " in "+k.PanicIn) && strings.Contains(res.Msg+" "+r.f.Detail, k.PanicIn) {
+				if confirmed {
+					r.f.Kind = "known"
+				}
+			} else {
+				r.f.Kind = "panic"
+			}
 		}
 		if !confirmed {
 			r.f.Replayed = "not-confirmed (native: " + res.Result + " " + strings.Join(res.Labels, ",") + " " + res.Msg + ")"
